@@ -234,7 +234,10 @@ def pipeline2dot(pipe, data, **params):
             )
         for i in range(raw_data.shape[1]):
             data["X%d" % i] = "sch0:f%d" % i
-    elif not isinstance(raw_data, list):
+    elif isinstance(raw_data, list):
+        for k, c in enumerate(raw_data):
+            data[c] = "sch0:f%d" % k
+    else:
         raise TypeError(f"Unexpected data type: {type(raw_data)}.")
 
     options = {
